@@ -2,6 +2,7 @@
 C15 — Shutdown is graceful.
 -/
 import FhVerif.Model.Shutdown
+import FhVerif.Gen.Facts
 
 namespace Fh.Props.C15
 open Fh Fh.Model
@@ -12,11 +13,11 @@ structure SDInv (s : SDState) : Prop where
   gauge : s.open_ = (if s.serveRunning then 1 else 0) + live s.conns
   listener : s.stop = true → s.listenerOpen = false
   doneCh : s.stop = true → s.doneClosed = true
-  answered_le : s.answered + (s.conns.filter (fun p => p == .inHandler || p == .writing)).length = s.started
+  answered_le : s.answered + (s.conns.filter (fun p => p == .inHandler || p == .writing || p == .buffered)).length = s.started
   nil_ok : s.returnedNil = true → s.open_ = 0 ∧ s.stop = true
 
 def cnt (f : ConnPhase → Bool) (l : List ConnPhase) : Nat := (l.filter f).length
-def hw (p : ConnPhase) : Bool := p == .inHandler || p == .writing
+def hw (p : ConnPhase) : Bool := p == .inHandler || p == .writing || p == .buffered
 
 theorem cnt_set (f : ConnPhase → Bool) (l : List ConnPhase) (i : Nat) (p q : ConnPhase) (h : l[i]? = some p) :
     cnt f (l.set i q) + (if f p then 1 else 0) = cnt f l + (if f q then 1 else 0) := by
@@ -63,7 +64,7 @@ theorem sd_init : SDInv {} := by
 theorem sdStep_inv (s s' : SDState) (e : SDEvent) (h : SDInv s) (hs : sdStep s e = some s') : SDInv s' := by
   have hg := h.gauge; rw [live_eq_cnt] at hg
   have ha := h.answered_le
-  have hhw : (s.conns.filter (fun p => p == .inHandler || p == .writing)).length = cnt hw s.conns := rfl
+  have hhw : (s.conns.filter (fun p => p == .inHandler || p == .writing || p == .buffered)).length = cnt hw s.conns := rfl
   rw [hhw] at ha
   cases e with
   | accept =>
@@ -129,6 +130,36 @@ theorem sdStep_inv (s s' : SDState) (e : SDEvent) (h : SDInv s) (hs : sdStep s e
       · injection hs with hs; subst hs
         have c1 := cnt_set (· != .done) s.conns i .writing .idle hc
         have c2 := cnt_set hw s.conns i .writing .idle hc
+        simp [hw] at c1 c2
+        refine ⟨by simp only [live_eq_cnt, setPhase]; omega, h.listener, h.doneCh, ?_, h.nil_ok⟩
+        show _ + cnt hw (setPhase _ _ _) = _; simp only [setPhase]; omega
+    · cases hs
+  | responseBuffered i =>
+    simp only [sdStep] at hs
+    split at hs
+    · rename_i hc
+      injection hs with hs; subst hs
+      have c1 := cnt_set (· != .done) s.conns i .writing .buffered hc
+      have c2 := cnt_set hw s.conns i .writing .buffered hc
+      simp [hw] at c1 c2
+      refine ⟨by simp only [live_eq_cnt, setPhase]; omega, h.listener, h.doneCh, ?_, h.nil_ok⟩
+      show _ + cnt hw (setPhase _ _ _) = _; simp only [setPhase]; omega
+    · cases hs
+  | bufferedNext i =>
+    simp only [sdStep] at hs
+    split at hs
+    · rename_i hc
+      split at hs
+      · injection hs with hs; subst hs
+        have c1 := cnt_set (· != .done) s.conns i .buffered .done hc
+        have c2 := cnt_set hw s.conns i .buffered .done hc
+        simp [hw] at c1 c2
+        refine ⟨by simp only [live_eq_cnt, setPhase]; split at hg <;> simp_all <;> omega, h.listener, h.doneCh, ?_, ?_⟩
+        · show _ + cnt hw (setPhase _ _ _) = _; simp only [setPhase]; omega
+        · intro hn; have := h.nil_ok hn; exact ⟨by dsimp only; omega, this.2⟩
+      · injection hs with hs; subst hs
+        have c1 := cnt_set (· != .done) s.conns i .buffered .reading hc
+        have c2 := cnt_set hw s.conns i .buffered .reading hc
         simp [hw] at c1 c2
         refine ⟨by simp only [live_eq_cnt, setPhase]; omega, h.listener, h.doneCh, ?_, h.nil_ok⟩
         show _ + cnt hw (setPhase _ _ _) = _; simp only [setPhase]; omega
@@ -219,7 +250,7 @@ theorem nil_implies_quiescent (es : List SDEvent) (s : SDState) (hr : sdRun {} e
     intro p hp
     have := cnt_zero_none (· != .done) s.conns hlive p hp
     simpa using this
-  have hhw : (s.conns.filter (fun p => p == .inHandler || p == .writing)).length = 0 := by
+  have hhw : (s.conns.filter (fun p => p == .inHandler || p == .writing || p == .buffered)).length = 0 := by
     apply List.length_eq_zero_iff.2
     apply List.filter_eq_nil_iff.2
     intro p hp; rw [hall p hp]; decide
@@ -242,10 +273,29 @@ theorem idle_closed_not_awaited (s s' : SDState) (h : sdStep s .closeIdleTick = 
     unfold closeIdle; split <;> simp_all
   · cases h
 
+/-- a connection whose response still sits in the write buffer (further pipelined requests were already read) is not
+    an idle connection: the tick that closes idle connections leaves it alone, so its response is still flushed -/
+theorem buffered_not_closed_by_idle_tick (s s' : SDState) (h : sdStep s .closeIdleTick = some s') (i : Nat)
+    (hb : s.conns[i]? = some .buffered) : s'.conns[i]? = some .buffered := by
+  simp only [sdStep] at h
+  split at h
+  · injection h with h; subst h
+    simp [List.getElem?_map, hb, closeIdle]
+  · cases h
+
+/-- regenerated from /repo: the serve loop stamps the connection as idle only under `br == nil || br.Buffered() == 0`,
+    i.e. never in the model's `buffered` phase (the repaired defect b7ee3f4 was an unconditional stamp) -/
+theorem idle_stamp_only_when_nothing_buffered :
+    Gen.idleStampGuards = ["br == nil || br.Buffered() == 0"] := by decide
+
 /-! non-vacuity: a connection with a handler in flight while Shutdown begins; nil only after its response is written -/
 example : (sdRun {} [.accept, .firstByte 0, .headerDone 0, .shutdownBegin, .serveReturn, .shutdownPoll, .handlerReturn 0,
     .responseWritten 0, .shutdownPoll]).map (fun s => (s.returnedNil, s.answered, s.open_)) = some (true, 1, 0) := by decide
 example : (sdRun {} [.accept, .firstByte 0, .headerDone 0, .shutdownBegin, .serveReturn, .shutdownPoll]).map
     (fun s => s.returnedNil) = some false := by decide
+-- pipelined: the first response is buffered when Shutdown begins; idle ticks do not touch it; it is flushed, then nil
+example : (sdRun {} [.accept, .firstByte 0, .headerDone 0, .handlerReturn 0, .responseBuffered 0, .shutdownBegin, .closeIdleTick,
+    .serveReturn, .shutdownPoll, .bufferedNext 0, .shutdownPoll]).map (fun s => (s.returnedNil, s.answered, s.started, s.open_)) =
+    some (true, 1, 1, 0) := by decide
 
 end Fh.Props.C15
